@@ -17,14 +17,30 @@ def Locals.get (l : Locals) (name : String) : Option Value :=
 def Locals.set (l : Locals) (name : String) (v : Value) : Locals :=
   (name, v) :: l.filter (fun p => p.1 != name)
 
+/-- `expr::EvalContext`: locals, token substitutions (argument excerpts for `asm` blocks)
+    and the recursion depth -/
+structure ECtx where
+  locals : Locals := []
+  substs : List (String × List Char) := []
+  depth : Nat := 0
+deriving Repr, Inhabited
+
+def ECtx.setLocal (c : ECtx) (n : String) (v : Value) : ECtx := { c with locals := c.locals.set n v }
+def ECtx.setSubst (c : ECtx) (n : String) (x : List Char) : ECtx :=
+  { c with substs := (n, x) :: c.substs.filter (·.1 != n) }
+/-- `EvalContext::new_deepened` -/
+def ECtx.deepened (c : ECtx) : ECtx := { locals := [], substs := [], depth := c.depth + 1 }
+
 /-- what the evaluator asks of its surroundings (`EvalProvider`) -/
 structure EvalEnv where
   var : Nat → List String → Except String Value
-  fn : Value → List Value → Except String Value
+  fn : Value → List Value → ECtx → Except String Value
+  asm : List Char → ECtx → Except String Value
 
 def dummyEnv : EvalEnv :=
   { var := fun _ _ => .error "cannot reference variables in this context"
-    fn := fun _ _ => .error "cannot reference functions in this context" }
+    fn := fun _ _ _ => .error "cannot reference functions in this context"
+    asm := fun _ _ => .error "cannot use `asm` blocks in this context" }
 
 def bitLen (x : Int) : Nat := nbits x.natAbs
 
@@ -170,13 +186,13 @@ def isBuiltinName (n : String) : Bool := Gen.builtinFns.any (fun p => p.1 == n)
 
 mutual
 /-- `Expr::eval_with_ctx` -/
-def eval (env : EvalEnv) (locals : Locals) : Expr → Except String (Value × Locals)
+def eval (env : EvalEnv) (locals : ECtx) : Expr → Except String (Value × ECtx)
   | .lit v => .ok (v, locals)
   | .var level path =>
     match level, path with
     | 0, [name] =>
       if isBuiltinName name then .ok (.builtin name, locals)
-      else match locals.get name with
+      else match locals.locals.get name with
         | some v => .ok (v, locals)
         | none => (env.var level path).map (·, locals)
     | _, _ => (env.var level path).map (·, locals)
@@ -198,7 +214,7 @@ def eval (env : EvalEnv) (locals : Locals) : Expr → Except String (Value × Lo
         match eval env locals r with
         | .error m => .error m
         | .ok (v, locals) =>
-          if v.shouldPropagate then .ok (v, locals) else .ok (.void, locals.set name v)
+          if v.shouldPropagate then .ok (v, locals) else .ok (.void, locals.setLocal name v)
       | _, _ => .error "symbol cannot be assigned to"
     | _ => .error "invalid assignment destination"
   | .bin .LazyOr l r =>
@@ -307,14 +323,14 @@ def eval (env : EvalEnv) (locals : Locals) : Expr → Except String (Value × Lo
       | .ok (.inr vs, locals) =>
         match fv with
         | .builtin name => (evalBuiltin name vs).map (·, locals)
-        | .asmBuiltin _ => (env.fn fv vs).map (·, locals)
-        | .fn _ => (env.fn fv vs).map (·, locals)
+        | .asmBuiltin _ => (env.fn fv vs locals).map (·, locals)
+        | .fn _ => (env.fn fv vs locals).map (·, locals)
         | .unknown => .error "unknown function"
         | _ => .error "expression is not callable"
-  | .asm _ => .error "cannot use `asm` blocks in this context"
+  | .asm text => (env.asm text locals).map (·, locals)
 
 /-- the `for expr in exprs` loop of `Expr::Block` -/
-def evalBlock (env : EvalEnv) (locals : Locals) (last : Value) : List Expr → Except String (Value × Locals)
+def evalBlock (env : EvalEnv) (locals : ECtx) (last : Value) : List Expr → Except String (Value × ECtx)
   | [] => .ok (last, locals)
   | e :: es =>
     match eval env locals e with
@@ -323,7 +339,7 @@ def evalBlock (env : EvalEnv) (locals : Locals) (last : Value) : List Expr → E
       if v.shouldPropagate then .ok (v, locals) else evalBlock env locals v es
 
 /-- argument evaluation of `Expr::Call`; `inl v` = a propagated `Unknown`/`FailedConstraint` -/
-def evalArgs (env : EvalEnv) (locals : Locals) (acc : List Value) : List Expr → Except String (Sum Value (List Value) × Locals)
+def evalArgs (env : EvalEnv) (locals : ECtx) (acc : List Value) : List Expr → Except String (Sum Value (List Value) × ECtx)
   | [] => .ok (.inr acc.reverse, locals)
   | e :: es =>
     match eval env locals e with
